@@ -50,11 +50,14 @@ pub fn split_digits_ref<const B: Word>(value: &IBig, pos: usize) -> (r: (IBig, I
     ensures is_trunc_divrem(value.v(), ipow(B as int, pos as nat), r.0.v(), r.1.v())
 { unimplemented!() }
 impl<const B: Word> Repr<B> {
-    /// Repr::new = struct literal + normalize(): same value, zero becomes (0, 0); exponent overflow not modelled
+    /// Repr::new = struct literal + normalize(): same value, zero becomes (0, 0), result normalized; exponent overflow not modelled
     #[verifier::external_body]
     pub fn new(significand: IBig, exponent: isize) -> (r: Self)
         ensures same_value(B as int, r.significand.v(), r.exponent as int, significand.v(), exponent as int),
             significand.v() == 0 ==> r.significand.v() == 0 && r.exponent == 0,
+            // normalize(): "so that the significand is not divisible by the base" (all three branches: B == 2,
+            // B a power of two, UBig::remove for the rest)
+            B >= 2 ==> (r.significand.v() == 0 || r.significand.v() % (B as int) != 0),
     { unimplemented!() }
 }
 impl<const B: Word> Clone for Repr<B> {
